@@ -55,6 +55,7 @@ type tracker struct {
 	wantedSet   bool
 	answered    bool
 	lastStartTS uint64
+	signs       int // block signatures requested since the last Start/Reset (one initialisation epoch)
 	fpBefore    string
 	effects     []string
 	viewBefore  byte
@@ -166,6 +167,14 @@ func (m *monitor) event(n *node, kind string) {
 		m.tick("C07")
 		if amevOn(n, h) && t.preOKs == 0 {
 			m.nhit(n, "C07", "final-block-before-preblock", fmt.Sprintf("node %d: %s at anti-MEV height %d before the pre-block was processed", n.id, kind, h))
+		}
+	}
+	if kind == "SIGN" {
+		// the statement of Properties/C03.v an_honest_node_signs_at_most_one_block_per_epoch, observed on the real library
+		m.tick("C03")
+		t.signs++
+		if t.signs > 1 {
+			m.nhit(n, "C03", "second-block-signature", fmt.Sprintf("node %d asked for a block signature %d times since its last Start/Reset (height %d, view %d)", n.id, t.signs, h, n.d.ViewNumber))
 		}
 	}
 	if (kind == "SIGN" || kind == "SETDATA") && !n.honestValidator() {
@@ -379,8 +388,8 @@ func (m *monitor) broadcast(n *node, p *Payload) {
 			cnt, hasReq := countPreps()
 			if !hasReq {
 				m.nhit(n, "C04", "commit-without-proposal", fmt.Sprintf("node %d sent type %d at (%d,%d) without holding the proposal", n.id, p.T, h, d.ViewNumber))
-			} else if cnt < d.M() {
-				m.nhit(n, "C04", "commit-without-quorum", fmt.Sprintf("node %d sent type %d at (%d,%d) holding %d matching preparations, M=%d", n.id, p.T, h, d.ViewNumber, cnt, d.M()))
+			} else if cnt < mOf(d) {
+				m.nhit(n, "C04", "commit-without-quorum", fmt.Sprintf("node %d sent type %d at (%d,%d) holding %d matching preparations, M=%d", n.id, p.T, h, d.ViewNumber, cnt, mOf(d)))
 			} else if !holdsAllTx(d) {
 				m.nhit(n, "C04", "commit-missing-transactions", fmt.Sprintf("node %d sent type %d without all transactions", n.id, p.T))
 			}
@@ -396,8 +405,8 @@ func (m *monitor) broadcast(n *node, p *Payload) {
 			switch {
 			case !t.preSent:
 				m.nhit(n, "C07", "commit-before-own-precommit", fmt.Sprintf("node %d committed at anti-MEV height %d without having sent a PreCommit", n.id, h))
-			case cnt < d.M():
-				m.nhit(n, "C07", "commit-without-precommit-quorum", fmt.Sprintf("node %d committed at anti-MEV height %d with %d pre-commits, M=%d", n.id, h, cnt, d.M()))
+			case cnt < mOf(d):
+				m.nhit(n, "C07", "commit-without-precommit-quorum", fmt.Sprintf("node %d committed at anti-MEV height %d with %d pre-commits, M=%d", n.id, h, cnt, mOf(d)))
 			case t.preOKs == 0:
 				m.nhit(n, "C07", "commit-before-preblock", fmt.Sprintf("node %d committed at anti-MEV height %d before ProcessPreBlock succeeded", n.id, h))
 			}
@@ -447,15 +456,15 @@ func (m *monitor) processPreBlock(n *node, b *PreBlock, fail bool) {
 			}
 		}
 	}
-	if valid < d.M() {
+	if valid < mOf(d) {
 		sig := "too-few-precommits"
-		if counted >= d.M() {
+		if counted >= mOf(d) {
 			sig = "invalid-precommit-counted"
 			if counted-valid == early {
 				sig = "early-precommit-unverified"
 			}
 		}
-		m.nhit(n, "C02", sig, fmt.Sprintf("node %d hands over pre-block %d with %d valid of %d counted pre-commits, M=%d", n.id, b.idx, valid, counted, d.M()))
+		m.nhit(n, "C02", sig, fmt.Sprintf("node %d hands over pre-block %d with %d valid of %d counted pre-commits, M=%d", n.id, b.idx, valid, counted, mOf(d)))
 	}
 	if !fail {
 		t.preOKs++
@@ -485,9 +494,9 @@ func (m *monitor) processBlock(n *node, b *Block, fail bool) {
 		}
 	}
 	c02sig := ""
-	if valid < d.M() {
+	if valid < mOf(d) {
 		sig := "too-few-commits"
-		if counted >= d.M() {
+		if counted >= mOf(d) {
 			sig = "invalid-commit-counted"
 			if counted-valid == early {
 				sig = "early-commit-unverified"
@@ -505,7 +514,7 @@ func (m *monitor) processBlock(n *node, b *Block, fail bool) {
 			}
 		}
 		c02sig = sig
-		m.nhit(n, "C02", sig, fmt.Sprintf("node %d accepts height %d with %d valid of %d counted commits, M=%d", n.id, b.idx, valid, counted, d.M()))
+		m.nhit(n, "C02", sig, fmt.Sprintf("node %d accepts height %d with %d valid of %d counted commits, M=%d", n.id, b.idx, valid, counted, mOf(d)))
 	}
 	// the block extends the tip and is the primary's proposal
 	if b.idx != n.height+1 || b.prev != n.tip {
@@ -579,7 +588,9 @@ func (m *monitor) noteReceive(n *node, typ int, from uint16, height uint32, view
 	switch dbft.MessageType(typ) {
 	case dbft.CommitType:
 		if view <= d.ViewNumber && d.CommitPayloads[from] == nil {
-			t.early[from] = d.Header() == nil
+			// "early": stored at a moment at which the library cannot verify it - before the proposal is held, or
+			// (anti-MEV) before the final header can be built; a commit that arrives while the proposal is held must be verified
+			t.early[from] = !d.RequestSentOrReceived() || (amevOn(n, d.BlockIndex) && d.Header() == nil)
 		}
 	case dbft.PreCommitType:
 		if view <= d.ViewNumber && d.PreCommitPayloads[from] == nil {
@@ -604,6 +615,7 @@ func (m *monitor) before(n *node, desc string) {
 	t.inadmissible = ""
 	if strings.HasPrefix(desc, "S ") || strings.HasPrefix(desc, "R ") {
 		fmt.Sscanf(desc[2:], "%d", &t.lastStartTS)
+		t.signs = 0
 	}
 	if strings.HasPrefix(desc, "X ") && t.wantedSet {
 		// the obligation stands only while the node stays in the view of the proposal, is a backup that has
@@ -656,6 +668,15 @@ func (m *monitor) after(n *node, desc string) {
 		if len(d.Validators) != len(n.vals) {
 			m.nhit(n, "C05", "stale-validators", fmt.Sprintf("node %d after %s: validator list not refreshed", n.id, desc))
 		}
+		// every per-validator table is taken afresh for the validator list of this height: one slot per validator
+		for name, l := range map[string]int{"PreparationPayloads": len(d.PreparationPayloads), "PreCommitPayloads": len(d.PreCommitPayloads),
+			"CommitPayloads": len(d.CommitPayloads), "ChangeViewPayloads": len(d.ChangeViewPayloads),
+			"LastChangeViewPayloads": len(d.LastChangeViewPayloads), "LastSeenMessage": len(d.LastSeenMessage)} {
+			if l != len(d.Validators) {
+				m.nhit(n, "C05", "table-size-of-an-earlier-height", fmt.Sprintf("node %d after %s: %s has %d slots for %d validators", n.id, desc, name, l, len(d.Validators)))
+				break
+			}
+		}
 	}
 	if !n.started {
 		return
@@ -693,8 +714,8 @@ func (m *monitor) after(n *node, desc string) {
 				cnt++
 			}
 		}
-		if cnt < d.M() {
-			m.nhit(n, "C04", "view-entered-without-quorum", fmt.Sprintf("node %d entered view %d at height %d holding %d change views for it, M=%d", n.id, d.ViewNumber, d.BlockIndex, cnt, d.M()))
+		if cnt < mOf(d) {
+			m.nhit(n, "C04", "view-entered-without-quorum", fmt.Sprintf("node %d entered view %d at height %d holding %d change views for it, M=%d", n.id, d.ViewNumber, d.BlockIndex, cnt, mOf(d)))
 		}
 	}
 	// C11: inadmissible inputs change nothing but LastSeenMessage and cause no effect
@@ -843,4 +864,10 @@ func (m *monitor) summary() string {
 		sb = append(sb, fmt.Sprintf("%s %s run=%d node=%d op=%d | %s", h.prop, h.sig, h.run, h.node, h.op, h.desc))
 	}
 	return strings.Join(sb, "\n")
+}
+
+// mOf is the quorum size M = N - F, F = (N-1)/3, computed by the monitor itself (not through the library's Context.M)
+func mOf(d *dbft.DBFT[H]) int {
+	n := len(d.Validators)
+	return n - (n-1)/3
 }
